@@ -29,7 +29,7 @@ func init() {
 			"random finishing. (3) abandonment: registry built with a 60ms idle limit through the public constructor; the monitor waits 3x that and calls the exported sweep itself (a lower " +
 			"bound, no race with 'now'), or CleanupConnection, or GracefulShutdown; the abandoned transaction's writes must be gone. (4) begin requests whose context deadline (5-30ms) expires " +
 			"while another client holds the lock - the late-grant path - repeated for several rounds. (5) failures: commit after the storage was closed, service requests with invalid arguments " +
-			"in the middle of a transaction. distinct = hash(kind, parameters, call sequence); non-trivial = the scenario reached its critical step (timed-out begin, sweep of an abandoned " +
+			"in the middle of a transaction. Every 20th case: 40 rounds of 16-40 simultaneous read-only begins through the registry (distinct handles, lock probe after all finished); every 20th case: overlapping finishing calls on one transaction queued behind an in-flight multi-megabyte put (exactly one may take effect). Shutdown scenarios abandon several transactions and pass an expired context in every second instance. distinct = hash(kind, parameters, call sequence); non-trivial = the scenario reached its critical step (timed-out begin, sweep of an abandoned " +
 			"transaction, failed commit, second finish)",
 		Assumptions: []string{"a client that requests a second transaction while still holding one is excluded (documented limitation)", "the hard-coded 30s registry ticker is bypassed by calling the exported sweep"},
 		NumCases: func(tier string) int {
